@@ -80,7 +80,7 @@ class Cohorts(Facet):
     shards = {"quick": 16, "thorough": 16}
 
     def strategy(self, tier):
-        return st.fixed_dictionaries({"cfg": sg.stock_configs(classes=("idsm", "sdsm_manual", "sdsm_lapack"), max_n=8 if tier == "quick" else 12)})
+        return st.fixed_dictionaries({"cfg": sg.stock_configs(classes=("idsm", "sdsm_manual", "sdsm_lapack"), max_n=8 if tier == "quick" else 12, long_grid=12)})
 
     def run(self, desc):
         return run_case(desc)
